@@ -34,6 +34,8 @@ class NetworkStack(BaseNetworkStack):
         """
         self._executioner = executioner
         self._sockets = {}
+        # NOTE the same EPR socket ID can be used towards several remote nodes
+        self._remote_socket_ids = {}
 
     def put(self, request):
         """Handles an request to the network stack"""
@@ -43,6 +45,7 @@ class NetworkStack(BaseNetworkStack):
         """Asks the network stack to setup circuits to be used"""
         # NOTE this just records the information but does not actually set up the socket
         self._sockets[epr_socket_id] = (remote_node_id, remote_epr_socket_id)
+        self._remote_socket_ids[remote_node_id, epr_socket_id] = remote_epr_socket_id
 
     def get_purpose_id(self, remote_node_id: int, epr_socket_id: int) -> int:
         pass
@@ -316,7 +319,7 @@ class VanillaSimulaQronExecutioner(Executor):
             arg_array_address=arg_array_address,
         )
         create_id = self._get_new_create_id(remote_node_id=remote_node_id)
-        remote_epr_socket_id = self._get_remote_epr_socket_id(epr_socket_id=epr_socket_id)
+        remote_epr_socket_id = self._get_remote_epr_socket_id(epr_socket_id=epr_socket_id, remote_node_id=remote_node_id)
 
         # Check that we have the right amount of virtual qubit addresses to be used
         app_id = self._get_app_id(subroutine_id=subroutine_id)
@@ -375,7 +378,10 @@ class VanillaSimulaQronExecutioner(Executor):
                 qubit_id=qubit_id,
             )
 
-    def _get_remote_epr_socket_id(self, epr_socket_id):
+    def _get_remote_epr_socket_id(self, epr_socket_id, remote_node_id=None):
+        remote_socket_ids = self.network_stack._remote_socket_ids
+        if (remote_node_id, epr_socket_id) in remote_socket_ids:
+            return remote_socket_ids[remote_node_id, epr_socket_id]
         remote_entry = self.network_stack._sockets.get(epr_socket_id)
         if remote_entry is None:
             raise ValueError(f"Unknown EPR socket ID {epr_socket_id}")
